@@ -29,7 +29,7 @@ MAX_FAMILIES = 6
 PPQN = 24
 
 # in-place mutators make sharing observable; weights biased toward them
-INPLACE = ["set_channel", "transpose", "scale", "quantise", "quantise_note_lengths", "cutoff", "direct_edit"]
+INPLACE = ["set_channel", "transpose", "scale", "quantise", "quantise_note_lengths", "cutoff", "direct_edit", "view_call"]
 OTHER_MUT = ["normalise", "pad", "add_absolute_message", "add_relative_message", "merge", "concatenate",
              "overwrite_absolute_messages", "overwrite_relative_messages", "quantise_and_normalise"]
 READS = ["read_abs", "read_rel", "refresh", "get_sequence_duration_relation", "is_empty", "get_message_times_of_type",
